@@ -1,11 +1,105 @@
-/- Driver ops for C12. -/
+/- Driver ops for C12 (translation covariance): evaluates the entry-point model at one origin. -/
 import Driver.Loop
+import Model.EntryPoints
 
 open Lean Model
 
 namespace Driver.C12
 
-def ops : List (String × Op) := []
+def ptToJson (p : Rat × Rat) : Json := ratsToJson [p.1, p.2]
+def gridToJson (g : List (Rat × Rat)) : Json := listToJson ptToJson g
+def getPt (j : Json) : Except String (Rat × Rat) := do
+  let l ← getRats j
+  match l with
+  | [a, b] => pure (a, b)
+  | _ => throw "expected pair"
+def getNatPair (j : Json) : Except String (Nat × Nat) := do
+  let l ← getNats j
+  match l with
+  | [a, b] => pure (a, b)
+  | _ => throw "expected nat pair"
+def bitsOf (s : String) : List Bool := s.toList.map (· == '1')
+def optPt : Option (Rat × Rat) → Json
+  | some p => ptToJson p
+  | none => Json.null
+
+def entries : Op := fun j => do
+  let m ← getMask (← field j "mask")
+  let s ← getPt (← field j "scales")
+  let o ← getPt (← field j "origin")
+  let k ← getNatPair (← field j "kernel")
+  let sub ← getNat (← field j "sub")
+  let g : Geom Rat := { shape := (m.h, m.w), s := s, o := o }
+  let grid := Impl.gridFromMask g m.bits
+  let edgeIdx ← getNats (← field j "edge_slim")
+  let borderIdx ← getNats (← field j "border_slim")
+  let blurBits := bitsOf (← getStr (← field j "blurring_bits"))
+  let resShape ← getNatPair (← field j "resized_shape")
+  let resBits := bitsOf (← getStr (← field j "resized_bits"))
+  let zoomShape ← getNatPair (← field j "zoom_shape")
+  let zoomedShape ← getNatPair (← field j "zoomed_shape")
+  let pts ← getList getPt (← field j "points")
+  let ext := Impl.extent g.shape g.s g.o
+  let zoomG := Impl.zoomMaskGeom g m.bits zoomShape
+  let zoomedG := Impl.zoomedAroundMaskGeom g m.bits zoomedShape
+  let resG := Impl.resizedGeom g resShape
+  let geomJson (x : Option (Geom Rat)) : Json :=
+    match x with
+    | some z => obj [("origin", ptToJson z.o), ("shape", natsToJson [z.shape.1, z.shape.2]),
+                     ("grid", gridToJson (Impl.gridAllFalse z))]
+    | none => Json.null
+  pure (obj [
+    ("from_mask", gridToJson grid),
+    ("all_false", gridToJson (Impl.gridAllFalse g)),
+    ("unmasked", gridToJson grid),
+    ("edge", gridToJson (Impl.gather grid edgeIdx)),
+    ("border", gridToJson (Impl.gather grid borderIdx)),
+    ("blurring", gridToJson (Impl.gridFromMask g blurBits)),
+    ("padded", gridToJson (Impl.paddedGrid g k)),
+    ("over_sampled", gridToJson (Impl.overSampledGrid g m.bits sub)),
+    ("border_sub_grid", gridToJson (Impl.overSampledGrid g m.bits sub)),
+    ("mask_centre", optPt (Impl.maskCentre g m.bits)),
+    ("extent", ratsToJson [ext.1, ext.2.1, ext.2.2.1, ext.2.2.2]),
+    ("scaled_minmax", gridToJson [Impl.scaledMinima g.shape g.s g.o, Impl.scaledMaxima g.shape g.s g.o]),
+    ("zoom_mask_unmasked", geomJson zoomG),
+    ("zoomed_around_mask", match zoomedG with
+      | some z => obj [("origin", ptToJson z.o), ("shape", natsToJson [z.shape.1, z.shape.2]),
+                       ("grid", gridToJson (Impl.gridAllFalse z))]
+      | none => Json.null),
+    ("resized", obj [("origin", ptToJson resG.o), ("shape", natsToJson [resG.shape.1, resG.shape.2]),
+                     ("grid", gridToJson (Impl.gridFromMask resG resBits))]),
+    ("pixel_coordinates", listToJson (fun p =>
+        let c := Impl.pixelCoordinates2 truncRat g.shape g.s g.o p
+        intsToJson [c.1, c.2]) pts),
+    ("grid_pixel_indexes", intsToJson (Impl.gridPixelIndexes2 truncRat g.shape g.s g.o pts)),
+    ("grid_pixel_centres", listToJson (fun (c : Int × Int) => intsToJson [c.1, c.2])
+        (Impl.gridPixelCentres2 truncRat g.shape g.s g.o pts)),
+    ("grid_pixels", gridToJson (Impl.gridPixels2 g.shape g.s g.o pts))
+  ])
+
+/-- rectangular mapper: mesh record from the source-plane grid extremes + index table -/
+def rectMapper : Op := fun j => do
+  let grid ← getList getPt (← field j "grid")
+  let ms ← getNatPair (← field j "mesh")
+  let buffer ← getRat (← field j "buffer")
+  match Impl.overlayMeshGeom grid ms buffer with
+  | none => throw "empty_grid"
+  | some mesh =>
+    -- distance of every continuous mesh-pixel coordinate to the nearest integer (tie band detection)
+    let frac (x : Rat) : Rat := let f := x - (x.floor : Rat); if f < 1 - f then f else 1 - f
+    -- the outer frame of the mesh is not a tie between two cells (the 1e-8 buffer keeps every point
+    -- inside by far more than rounding error): only interior cell boundaries count
+    let inner (x : Rat) (n : Nat) : Rat := if x < 1/2 ∨ x > (n : Rat) - 1/2 then 1 else frac x
+    let margins := grid.map fun p =>
+      let c := Impl.pixelsOfScaled mesh.shape mesh.s mesh.o p
+      let a := inner c.1 mesh.shape.1
+      let b := inner c.2 mesh.shape.2
+      if a < b then a else b
+    let margin := margins.foldl (fun a b => if b < a then b else a) 1
+    pure (obj [("origin", ptToJson mesh.o), ("scales", ptToJson mesh.s), ("tie_margin", ratToJson margin),
+               ("pix_indexes", intsToJson (Impl.rectangularPixIndexes truncRat mesh grid))])
+
+def ops : List (String × Op) := [("c12.entries", entries), ("c12.rect_mapper", rectMapper)]
 
 end Driver.C12
 
